@@ -1,4 +1,8 @@
 // native replay oracle for C12: index implementations against std::map
+#include <osmium/index/map/dense_mmap_array.hpp>
+#include <unistd.h>
+#include <cstdlib>
+#include <osmium/index/map/dense_file_array.hpp>
 #include <osmium/index/map/flex_mem.hpp>
 #include <osmium/index/map/dense_mem_array.hpp>
 #include <osmium/index/map/sparse_mem_array.hpp>
@@ -35,9 +39,29 @@ static int check_flex_switch() {
     return 0;
 }
 
+// mmap/file backed dense arrays growing beyond their first capacity: ids in the grown region that were never set must be "not found"
+template <typename TMap> static int check_mmap_growth(const char* what, TMap& m) {
+    using osmium::Location;
+    const osmium::unsigned_object_id_type set_ids[] = {5, (1ULL << 20) + 7, (5ULL << 20) + 1};
+    for (auto id : set_ids) m.set(id, Location{int32_t(id % 1000), 7});
+    for (auto id : set_ids) { if (m.get(id) != Location{int32_t(id % 1000), 7}) { std::printf("%s: id %llu comes back with a different value\nARGV: mmapgrow\n", what, (unsigned long long)id); return 1; } }
+    for (osmium::unsigned_object_id_type id : {6ULL, (1ULL << 20) + 3, (1ULL << 20) + 8, (2ULL << 20) + 100, (5ULL << 20), (5ULL << 20) - 1}) {
+        bool found = true; try { (void)m.get(id); } catch (const osmium::not_found&) { found = false; }
+        if (found || m.get_noexcept(id) != osmium::index::empty_value<Location>()) { std::printf("%s: id %llu was never set but is found (an element of the grown region does not hold the empty value)\nARGV: mmapgrow\n", what, (unsigned long long)id); return 1; } }
+    return 0;
+}
+static int check_mmapgrow() {
+    { osmium::index::map::DenseMmapArray<osmium::unsigned_object_id_type, osmium::Location> m; if (check_mmap_growth("DenseMmapArray", m)) return 1; }
+    { char name[] = "/tmp/c12_dense_XXXXXX"; const int fd = mkstemp(name); if (fd < 0) return 2; unlink(name);
+      osmium::index::map::DenseFileArray<osmium::unsigned_object_id_type, osmium::Location> m{fd}; const int rc = check_mmap_growth("DenseFileArray", m); close(fd); if (rc) return rc; }
+    return 0;
+}
+
 int main(int argc, char** argv) {
+    if (argc > 1 && std::string(argv[1]) == "mmapgrow") return check_mmapgrow();
     std::string only = argc > 3 ? argv[3] : (argc > 1 ? argv[1] : ""); unsigned seed = argc > 2 ? unsigned(std::atoll(argv[2])) : 1;
     bool all = only.empty() || only == "--search" || only == "search";
+    if (all || only.find("mmap") != std::string::npos) if (check_mmapgrow()) return 1;
     if (all || only.find("Dense") != std::string::npos || only.find("dense") != std::string::npos) if (check_small<osmium::index::map::DenseMemArray<unsigned_object_id_type, Location>>("DenseMemArray", seed, false)) return 1;
     if (all) { if (check_small<osmium::index::map::SparseMemArray<unsigned_object_id_type, Location>>("SparseMemArray", seed, true)) return 1;
                if (check_small<osmium::index::map::SparseMemMap<unsigned_object_id_type, Location>>("SparseMemMap", seed, false)) return 1; }
